@@ -113,11 +113,15 @@ func xmpFixed(p string, rng *rand.Rand) (text string, want interface{}) {
 		rng.Read(u)
 		h := fmt.Sprintf("%x", u)
 		canon := h[:8] + "-" + h[8:12] + "-" + h[12:16] + "-" + h[16:20] + "-" + h[20:]
-		switch rng.Intn(3) {
+		switch rng.Intn(5) {
 		case 0:
 			return "xmp.did:" + canon, h
 		case 1:
 			return "uuid:" + strings.ToUpper(h), h
+		case 2:
+			return h, h // identifiers without a prefix, as older writers stored them
+		case 3:
+			return canon, h
 		}
 		return "xmp.iid:" + canon, h
 	}
